@@ -1,5 +1,6 @@
 import Utcp.Handshake
 import Utcp.Props.C13
+import Utcp.Lemmas.HsFlow
 /-!
 # C05 — handshake completes despite loss / duplication / reordering, ends agree
 
@@ -106,6 +107,292 @@ theorem server_resends_ack {T} (tm : TimeOps T) (e : Env) (rng : Rng) (ep : Endp
   unfold Endpoint.handshakeIncoming Endpoint.resendAck
   simp only [hch]
   exact ⟨_, _, rfl, rfl⟩
+
+/-! ## the fault-free exchange: four datagrams connect both ends, for every parameter; and so does every retransmission -/
+
+/-- the process-global configuration at clock reading `t` -/
+def at_ (cfg : Env) (t : Int) : Env := { cfg with elapsedUs := t }
+
+/-- the newest event of an endpoint, if it is a datagram -/
+def lastOut (ep : Endpoint) : Option (List UInt8) :=
+  match ep.c.log with
+  | .out d :: _ => some d
+  | _ => none
+
+/-- second half of the exchange, executable: the client's newest datagram (a response) reaches the listener at `t4`; the application
+creates the server-side connection when the listener reports the acceptance; the listener's answer reaches the client at `t5`.
+Result: final client, server-side connection, the acceptance; `none` if a step does not produce what the next one needs. -/
+def finish {T} (tm : TimeOps T) (mac : Mac) (cfg : Env) (t4 t5 : Int) (rA rL : Rng) (ep2 : Endpoint) (l : LState T) (addr : String) :
+    Option (Endpoint × Endpoint × Accepted) :=
+  match lastOut ep2 with
+  | none => none
+  | some d3 =>
+    let r4 := l.react tm mac (at_ cfg t4) rL addr d3
+    match r4.acc, r4.evs with
+    | some acc, [.accept _ _, .out d4] =>
+      let s5 := ep2.incoming tm (at_ cfg t5) rA d4
+      some (s5.1, Endpoint.accepted (at_ cfg t4) acc, acc)
+    | _, _ => none
+
+/-- the exchange from an initial packet on: the client's newest datagram reaches the listener at `t2`, the listener's answer reaches the
+client at `t3`, then `finish` -/
+def fromInitial {T} (tm : TimeOps T) (mac : Mac) (cfg : Env) (t2 t3 t4 t5 : Int) (rA rL : Rng) (ep1 : Endpoint) (l : LState T) (addr : String) :
+    Option (Endpoint × Endpoint × Accepted) :=
+  match lastOut ep1 with
+  | none => none
+  | some d1 =>
+    let r2 := l.react tm mac (at_ cfg t2) rL addr d1
+    match r2.evs with
+    | [.out d2] =>
+      let s3 := ep1.incoming tm (at_ cfg t3) rA d2
+      finish tm mac cfg t4 t5 s3.2.1 r2.rng s3.1 r2.st addr
+    | _ => none
+
+/-- **the exchange**: the client connects at `t1`; each datagram an end emits is handed, unchanged, to the other end -/
+def exchange {T} (tm : TimeOps T) (mac : Mac) (cfg : Env) (t1 t2 t3 t4 t5 : Int) (rA rB : Rng) (counter : Nat)
+    (ep0 : Endpoint) (l : LState T) (addr : String) : Option (Endpoint × Endpoint × Accepted) :=
+  let s1 := ep0.connect (at_ cfg t1) rA counter
+  fromInitial tm mac cfg t2 t3 t4 t5 s1.2.1 rB s1.1 l addr
+
+/-- what "the handshake completed and the ends agree" means for the result of an exchange that started with the client's log at `base`:
+one acceptance, for this address, not a restart; the client is connected, reported `connect` exactly once and otherwise only emitted
+datagrams; the two connections agree on packet ids, initial channel sequences, ack sequence numbers and cookie -/
+def Completes (addr : String) (base : List Event) (r : Option (Endpoint × Endpoint × Accepted)) : Prop :=
+  ∃ cl sv acc, r = some (cl, sv, acc) ∧
+    acc.addr = addr ∧ acc.restarted = false ∧
+    cl.c.connected = true ∧ cl.chal.map (·.state) = some stInit ∧
+    (∃ mid, (∀ ev ∈ mid, ∃ d, ev = .out d) ∧ cl.c.log = .connect false :: (mid ++ base)) ∧
+    sv.c.outPacketId = cl.c.inPacketId + 1 ∧ cl.c.outPacketId = sv.c.inPacketId + 1 ∧
+    sv.c.initOutReliable = cl.c.initInReliable ∧ cl.c.initOutReliable = sv.c.initInReliable ∧
+    sv.c.notify.outSeq = seq_num_inc cl.c.notify.inSeq 1 ∧ cl.c.notify.outSeq = seq_num_inc sv.c.notify.inSeq 1 ∧
+    sv.c.cookie = cl.c.cookie ∧ cl.c.cookie = acc.cookie
+
+/-- **from a response on**: a pending client whose newest datagram is a response carrying a cookie this listener state issues for this
+address, arriving while the cookie is alive, is accepted, and the ack connects it -/
+theorem finish_completes {T} (tm : TimeOps T) (mac : Mac) (cfg : Env) (t3 t4 t5 : Int) (rA rL r0 : Rng) (ep2 : Endpoint) (ch2 : Challenge)
+    (l : LState T) (addr : String) (cid cnt : Nat) (sid : Bool) (ts : UInt64)
+    (hm : cfg.magic < 2 ^ cfg.magicBits) (hck : cfg.checksum < 4294967296) (hmac : ∀ k m, (mac k m).length = 20) (ha : addr.isEmpty = false)
+    (hch : ep2.chal = some ch2) (hst : ch2.state = stUnInit ∨ ch2.state = stLocal) (hr : ch2.restarted = false) (hcnt : cnt < 256)
+    (hout : lastOut ep2 = some (bitsBytes (responsePktG (at_ cfg t3) r0 cid cnt sid ts (l.cookie mac addr sid ts)).2))
+    (hlife : LState.validLife tm (at_ cfg t4) (responseDataG (at_ cfg t3) cnt sid ts (l.cookie mac addr sid ts)) = true)
+    (hsec : l.validSecret tm (responseDataG (at_ cfg t3) cnt sid ts (l.cookie mac addr sid ts)) = true)
+    (hneg : tm.lt0 (tm.ofBits 0xBFF0000000000000) = true) :
+    Completes addr ep2.c.log (finish tm mac cfg t4 t5 rA rL ep2 l addr) := by
+  obtain ⟨b3, r3, w3a, w3b, w3c⟩ := response_wireG (at_ cfg t3) r0 cid cnt sid ts (l.cookie mac addr sid ts) hm (hmac _ _) hcnt hck
+  have w3b' : readOutgoingHeader (at_ cfg t4) b3 = .ok (0, cid % 8, true) r3 := w3b
+  let hs3 := responseDataG (at_ cfg t3) cnt sid ts (l.cookie mac addr sid ts)
+  have h4 := react_of_wire tm mac (at_ cfg t4) rL l addr _ b3 r3 _ _ _ w3a w3b' w3c
+  have s4 := response_step tm mac (at_ cfg t4) rL l addr (cid % 8) hs3 rfl rfl rfl ha hlife hsec rfl
+  rw [← h4] at s4
+  obtain ⟨_, _, s4acc, s4evs⟩ := s4
+  obtain ⟨b4, r4, w4a, w4b, w4c⟩ := ack_wire (at_ cfg t4) rL (cid % 8) hs3 hm (hmac _ _) hcnt hck
+  have w4b' : readOutgoingHeader (at_ cfg t5) b4 = .ok (cfg.travel % 4 % 4, cid % 8 % 8, true) r4 := w4b
+  have s5 := ack_step tm (at_ cfg t5) rA ep2 ch2 (ackData hs3) (cid % 8 % 8) hch hst rfl rfl hneg
+  have i5 := incoming_of_wire tm (at_ cfg t5) rA ep2 _ b4 r4 _ _ _ w4a w4b' w4c
+  rw [s5] at i5
+  simp only [bne_self_eq_false, Bool.false_eq_true, if_false] at i5
+  let acc : Accepted := { addr := addr, restarted := false, cookie := hs3.cookie, serverSeq := seqFromCookie hs3.cookie 0, clientSeq := seqFromCookie hs3.cookie 1 }
+  refine ⟨ep2.onAck (at_ cfg t5) ch2 (ackData hs3), Endpoint.accepted (at_ cfg t4) acc, acc, ?_, ?_⟩
+  · unfold finish
+    simp only [hout, s4acc, s4evs, i5]
+    rfl
+  · have ag := agree (at_ cfg t4) (at_ cfg t5) addr ep2 ch2 hs3.cookie
+    have hc : (ep2.onAck (at_ cfg t5) ch2 (ackData hs3)).c = (clientSide (at_ cfg t5) ep2 ch2 hs3.cookie).c := by
+      simp only [Endpoint.onAck, clientSide, hr, Bool.not_false, if_true]
+      rfl
+    rw [← hc] at ag
+    refine ⟨rfl, rfl, rfl, rfl, ⟨[], by simp, ?_⟩, ag.1, ag.2.1, ag.2.2.1, ag.2.2.2.1, ag.2.2.2.2.1, ag.2.2.2.2.2.1, ag.2.2.2.2.2.2, ?_⟩
+    · simp only [Endpoint.onAck, hr, Conn.emit, Conn.seqInit, Bool.not_false, if_true, List.nil_append]
+    · simp only [Endpoint.onAck, hr, Conn.emit, Bool.not_false, if_true]
+      rfl
+
+/-- the cookie lifetime test, for a cookie issued at clock reading `issued` and presented at `now` -/
+def lifeOk {T} (tm : TimeOps T) (issued now : Int) : Bool :=
+  tm.ge0 (tm.sub (tm.now now) (tm.ofBits (tm.toBits (tm.now issued)))) &&
+  tm.gt0 (tm.lifeLeft (tm.sub (tm.now now) (tm.ofBits (tm.toBits (tm.now issued)))))
+
+/-- the secret-id-versus-rotation-time test, for a cookie issued at `issued` under the then active secret -/
+def secretOk {T} (tm : TimeOps T) (l : LState T) (issued : Int) : Bool :=
+  if (if (l.active != 0) then 1 else 0) == l.active then tm.ge0 (tm.sub (tm.ofBits (tm.toBits (tm.now issued))) l.lastSecretUpdate)
+  else tm.le0 (tm.sub (tm.ofBits (tm.toBits (tm.now issued))) l.lastSecretUpdate)
+
+/-- what the time algebra has to satisfy for the exchange at these clock readings: zero is zero, the ack's −1.0 is negative, the
+challenge timestamp is positive, and the response arrives within the cookie's lifetime with no secret rotation in between -/
+structure Timely {T} (tm : TimeOps T) (l : LState T) (t2 t4 : Int) : Prop where
+  zero : tm.isZero (tm.ofBits 0) = true
+  ackNeg : tm.lt0 (tm.ofBits 0xBFF0000000000000) = true
+  chalPos : tm.gt0 (tm.ofBits (tm.toBits (tm.now t2))) = true
+  life : lifeOk tm t2 t4 = true
+  secret : secretOk tm l t2 = true
+
+/-- **from an initial packet on**: a pending client whose newest datagram is an initial packet gets a challenge, answers it, is accepted
+and connected -/
+theorem fromInitial_completes {T} (tm : TimeOps T) (mac : Mac) (cfg : Env) (t1 t2 t3 t4 t5 : Int) (rA rL r0 : Rng) (ep1 : Endpoint) (ch1 : Challenge)
+    (l : LState T) (addr : String) (cid cnt : Nat)
+    (hm : cfg.magic < 2 ^ cfg.magicBits) (hck : cfg.checksum < 4294967296) (hmac : ∀ k m, (mac k m).length = 20) (ha : addr.isEmpty = false)
+    (hch : ep1.chal = some ch1) (hst : ch1.state = stUnInit ∨ ch1.state = stLocal) (hr : ch1.restarted = false) (hsc : ch1.sentCount < 256)
+    (hcnt : cnt < 256) (hout : lastOut ep1 = some (bitsBytes (initialPktG (at_ cfg t1) r0 cid cnt).2))
+    (ht : Timely tm l t2 t4) :
+    ∃ d3, Completes addr (.out d3 :: ep1.c.log) (fromInitial tm mac cfg t2 t3 t4 t5 rA rL ep1 l addr) := by
+  obtain ⟨b1, r1, w1a, w1b, w1c⟩ := initial_wire (at_ cfg t1) r0 cid cnt hm hck hcnt
+  have w1b' : readOutgoingHeader (at_ cfg t2) b1 = .ok (0, cid % 8, true) r1 := w1b
+  have h2 := react_of_wire tm mac (at_ cfg t2) rL l addr _ b1 r1 _ _ _ w1a w1b' w1c
+  have s2 := initial_step tm mac (at_ cfg t2) rL l addr (cid % 8) ht.zero ha (at_ cfg t1) rfl cnt
+  rw [← h2] at s2
+  obtain ⟨s2st, _, _, s2rng, s2evs⟩ := s2
+  have hcs : (at_ cfg t2).checksum = cfg.checksum := rfl
+  rw [hcs] at s2rng s2evs
+  obtain ⟨b2, r2, w2a, w2b, w2c⟩ := challenge_wire tm mac (at_ cfg t2) rL l addr (cid % 8) cnt cfg.checksum hm hmac hcnt hck
+  have w2b' : readOutgoingHeader (at_ cfg t3) b2 = .ok (cfg.travel % 4 % 4, cid % 8 % 8, true) r2 := w2b
+  let hs2 := challengeData tm mac (at_ cfg t2) l addr cnt cfg.checksum
+  have s3 := challenge_step tm (at_ cfg t3) rA ep1 ch1 hs2 (cid % 8 % 8) hch hst hr rfl rfl ht.chalPos
+  have i3 := incoming_of_wire tm (at_ cfg t3) rA ep1 _ b2 r2 _ _ _ w2a w2b' w2c
+  rw [s3] at i3
+  simp only [bne_self_eq_false, Bool.false_eq_true, if_false] at i3
+  let ch2 : Challenge := { ch1 with lastChallengeMs := (at_ cfg t3).nowMs, sentCount := (ch1.sentCount + 1) % 256, lastClientSendMs := (at_ cfg t3).nowMs,
+                                    lastSecretId := hs2.secretId, lastTs := hs2.ts, lastCookie := hs2.cookie, state := stLocal }
+  obtain ⟨ep2, hep2⟩ : ∃ x : Endpoint, ({ c := ep1.c.emit (.out (bitsBytes (responsePkt (at_ cfg t3) rA ch1 hs2).2)), chal := some ch2 } : Endpoint) = x := ⟨_, rfl⟩
+  rw [hep2] at i3
+  have hfin := finish_completes tm mac cfg t3 t4 t5 (responsePkt (at_ cfg t3) rA ch1 hs2).1
+    (challengePkt tm mac (at_ cfg t2) rL l addr (cid % 8) cnt cfg.checksum).1 rA ep2 ch2 l addr ch1.clientId ch1.sentCount hs2.secretId hs2.ts
+    hm hck hmac ha (by rw [← hep2]) (Or.inr rfl) hr hsc (by rw [← hep2]; rfl) ht.life ht.secret ht.ackNeg
+  refine ⟨bitsBytes (responsePkt (at_ cfg t3) rA ch1 hs2).2, ?_⟩
+  have hlog : ep2.c.log = .out (bitsBytes (responsePkt (at_ cfg t3) rA ch1 hs2).2) :: ep1.c.log := by rw [← hep2]; rfl
+  rw [← hlog]
+  unfold fromInitial
+  simp only [hout, s2evs, s2st, s2rng, i3]
+  exact hfin
+
+/-- **fault-free completion, for every parameter**: whatever the magic-header configuration, the clock readings, the random
+streams (padding lengths 9…16 bytes), the client-id counter, the listener's secrets, the MAC (any function producing 20 bytes), the
+non-empty address and the client's prior data-path state — if the four datagrams arrive as sent and the response arrives within the
+cookie's lifetime, both ends complete and agree -/
+theorem fault_free_completion {T} (tm : TimeOps T) (mac : Mac) (cfg : Env) (t1 t2 t3 t4 t5 : Int) (rA rB : Rng) (counter : Nat)
+    (ep0 : Endpoint) (l : LState T) (addr : String)
+    (hm : cfg.magic < 2 ^ cfg.magicBits) (hck : cfg.checksum < 4294967296) (hmac : ∀ k m, (mac k m).length = 20)
+    (ha : addr.isEmpty = false) (ht : Timely tm l t2 t4) :
+    ∃ d3 d1, Completes addr (.out d3 :: .out d1 :: .alloc .chal :: ep0.c.log) (exchange tm mac cfg t1 t2 t3 t4 t5 rA rB counter ep0 l addr) := by
+  have h1 := connect_step (at_ cfg t1) rA counter ep0
+  obtain ⟨ep1, hep1⟩ : ∃ x : Endpoint, (ep0.connect (at_ cfg t1) rA counter).1 = x := ⟨_, rfl⟩
+  let ch1 : Challenge := { clientId := (counter + 1) % 8, sentCount := 1, lastClientSendMs := (at_ cfg t1).nowMs }
+  have hch1 : ep1.chal = some ch1 := by rw [← hep1, h1]
+  have hlo1 : lastOut ep1 = some (bitsBytes (initialPktG (at_ cfg t1) rA ((counter + 1) % 8) 0).2) := by rw [← hep1, h1]; rfl
+  have hlog : ep1.c.log = .out (bitsBytes (initialPktG (at_ cfg t1) rA ((counter + 1) % 8) 0).2) :: .alloc .chal :: ep0.c.log := by rw [← hep1, h1]; rfl
+  obtain ⟨d3, hc⟩ := fromInitial_completes tm mac cfg t1 t2 t3 t4 t5 (ep0.connect (at_ cfg t1) rA counter).2.1 rB rA ep1 ch1 l addr ((counter + 1) % 8) 0
+    hm hck hmac ha hch1 (Or.inl rfl) rfl (by show (1 : Nat) < 256; decide) (by decide) hlo1 ht
+  refine ⟨d3, bitsBytes (initialPktG (at_ cfg t1) rA ((counter + 1) % 8) 0).2, ?_⟩
+  rw [← hlog]
+  unfold exchange
+  simp only [hep1]
+  exact hc
+
+/-- **retransmission, starting over**: a pending client (any history of lost, duplicated or stale datagrams behind it) whose
+retransmission timer fires while it holds no usable challenge re-sends the initial packet; if the network delivers from then on, both
+ends complete and agree -/
+theorem retry_initial_completes {T} (tm : TimeOps T) (mac : Mac) (cfg : Env) (t1 t2 t3 t4 t5 : Int) (rA rB : Rng)
+    (ep : Endpoint) (ch : Challenge) (l : LState T) (addr : String)
+    (hm : cfg.magic < 2 ^ cfg.magicBits) (hck : cfg.checksum < 4294967296) (hmac : ∀ k m, (mac k m).length = 20) (ha : addr.isEmpty = false)
+    (hch : ep.chal = some ch) (hr : ch.restarted = false) (hsc : ch.sentCount < 256)
+    (hdue : retryDue (at_ cfg t1) ch) (hst : ch.state = stUnInit ∨ chalExpired (at_ cfg t1) ch) (ht : Timely tm l t2 t4) :
+    ∃ d3 d1, Completes addr (.out d3 :: .out d1 :: ep.c.log)
+      (fromInitial tm mac cfg t2 t3 t4 t5 (ep.handshakeUpdate tm (at_ cfg t1) rA).2 rB (ep.handshakeUpdate tm (at_ cfg t1) rA).1 l addr) := by
+  have h1 := update_retry_initial tm (at_ cfg t1) rA ep ch hch hr hdue hst
+  obtain ⟨ep1, hep1⟩ : ∃ x : Endpoint, (ep.handshakeUpdate tm (at_ cfg t1) rA).1 = x := ⟨_, rfl⟩
+  let ch1 : Challenge := { ch with state := stUnInit, sentCount := (ch.sentCount + 1) % 256, lastClientSendMs := (at_ cfg t1).nowMs }
+  have hch1 : ep1.chal = some ch1 := by rw [← hep1, h1]
+  have hlo1 : lastOut ep1 = some (bitsBytes (initialPktG (at_ cfg t1) rA ch.clientId ch.sentCount).2) := by rw [← hep1, h1]; rfl
+  have hlog : ep1.c.log = .out (bitsBytes (initialPktG (at_ cfg t1) rA ch.clientId ch.sentCount).2) :: ep.c.log := by rw [← hep1, h1]; rfl
+  have hlt : (ch.sentCount + 1) % 256 < 256 := Nat.mod_lt _ (by decide)
+  obtain ⟨d3, hc⟩ := fromInitial_completes tm mac cfg t1 t2 t3 t4 t5 (ep.handshakeUpdate tm (at_ cfg t1) rA).2 rB rA ep1 ch1 l addr ch.clientId ch.sentCount
+    hm hck hmac ha hch1 (Or.inl rfl) hr hlt hsc hlo1 ht
+  refine ⟨d3, bitsBytes (initialPktG (at_ cfg t1) rA ch.clientId ch.sentCount).2, ?_⟩
+  rw [← hlog, hep1]
+  exact hc
+
+/-- **retransmission of the response**: a pending client holding a challenge this listener state issued for this address, whose
+retransmission timer fires, re-sends its response; if that and the ack are delivered while the cookie is alive, both ends complete and
+agree -/
+theorem retry_response_completes {T} (tm : TimeOps T) (mac : Mac) (cfg : Env) (t3 t4 t5 : Int) (rA rB : Rng)
+    (ep : Endpoint) (ch : Challenge) (l : LState T) (addr : String)
+    (hm : cfg.magic < 2 ^ cfg.magicBits) (hck : cfg.checksum < 4294967296) (hmac : ∀ k m, (mac k m).length = 20) (ha : addr.isEmpty = false)
+    (hch : ep.chal = some ch) (hr : ch.restarted = false) (hsc : ch.sentCount < 256)
+    (hdue : retryDue (at_ cfg t3) ch) (hst : ch.state = stLocal) (hx : ¬ chalExpired (at_ cfg t3) ch)
+    (hnz : tm.isZero (tm.ofBits ch.lastTs) = false)
+    (hck' : ch.lastCookie = l.cookie mac addr ch.lastSecretId ch.lastTs)
+    (hlife : LState.validLife tm (at_ cfg t4) (responseDataG (at_ cfg t3) ch.sentCount ch.lastSecretId ch.lastTs ch.lastCookie) = true)
+    (hsec : l.validSecret tm (responseDataG (at_ cfg t3) ch.sentCount ch.lastSecretId ch.lastTs ch.lastCookie) = true)
+    (hneg : tm.lt0 (tm.ofBits 0xBFF0000000000000) = true) :
+    ∃ d3, Completes addr (.out d3 :: ep.c.log)
+      (finish tm mac cfg t4 t5 (ep.handshakeUpdate tm (at_ cfg t3) rA).2 rB (ep.handshakeUpdate tm (at_ cfg t3) rA).1 l addr) := by
+  have h1 := update_retry_response tm (at_ cfg t3) rA ep ch hch hr hdue hst hx hnz
+  obtain ⟨ep2, hep2⟩ : ∃ x : Endpoint, (ep.handshakeUpdate tm (at_ cfg t3) rA).1 = x := ⟨_, rfl⟩
+  let ch2 : Challenge := { ch with sentCount := (ch.sentCount + 1) % 256, lastClientSendMs := (at_ cfg t3).nowMs }
+  have hch2 : ep2.chal = some ch2 := by rw [← hep2, h1]
+  have hlo : lastOut ep2 = some (bitsBytes (responsePktG (at_ cfg t3) rA ch.clientId ch.sentCount ch.lastSecretId ch.lastTs ch.lastCookie).2) := by rw [← hep2, h1]; rfl
+  have hlog : ep2.c.log = .out (bitsBytes (responsePktG (at_ cfg t3) rA ch.clientId ch.sentCount ch.lastSecretId ch.lastTs ch.lastCookie).2) :: ep.c.log := by rw [← hep2, h1]; rfl
+  rw [hck'] at hlo hlife hsec
+  have hc := finish_completes tm mac cfg t3 t4 t5 (ep.handshakeUpdate tm (at_ cfg t3) rA).2 rB rA ep2 ch2 l addr ch.clientId ch.sentCount ch.lastSecretId ch.lastTs
+    hm hck hmac ha hch2 (Or.inr hst) hr hsc hlo hlife hsec hneg
+  refine ⟨bitsBytes (responsePktG (at_ cfg t3) rA ch.clientId ch.sentCount ch.lastSecretId ch.lastTs ch.lastCookie).2, ?_⟩
+  rw [← hlog, hep2]
+  exact hc
+
+/-- the two retransmission theorems cover every pending client: it either holds no usable challenge or a fresh one -/
+theorem retry_cases (e : Env) (ch : Challenge) (hst : ch.state = stUnInit ∨ ch.state = stLocal) :
+    (ch.state = stUnInit ∨ chalExpired e ch) ∨ (ch.state = stLocal ∧ ¬ chalExpired e ch) := by
+  by_cases hx : chalExpired e ch
+  · exact Or.inl (Or.inr hx)
+  · rcases hst with h | h
+    · exact Or.inl (Or.inl h)
+    · exact Or.inr ⟨h, hx⟩
+
+/-! ### the hypotheses are satisfiable: an exact time algebra (integer microseconds, with the ack's −1.0 as a sentinel) -/
+
+/-- integer microseconds; the one negative value the protocol puts on the wire (−1.0, in the ack) is represented exactly -/
+def sOps : TimeOps Int where
+  now := fun us => us + 1000000
+  ofBits := fun b => if b = 0xBFF0000000000000 then -1000000 else (b.toNat : Int)
+  toBits := fun t => if t = -1000000 then 0xBFF0000000000000 else UInt64.ofNat t.toNat
+  sub := fun a b => a - b
+  lifeLeft := fun x => Gen.MAX_COOKIE_LIFETIME_S * 1000000 - x
+  ge0 := fun x => decide (x ≥ 0)
+  gt0 := fun x => decide (x > 0)
+  le0 := fun x => decide (x ≤ 0)
+  lt0 := fun x => decide (x < 0)
+  isZero := fun x => x == 0
+
+theorem sOps_stamp (t : Int) (h0 : 0 ≤ t) (hb : t + 1000000 < 9223372036854775808) :
+    sOps.ofBits (sOps.toBits (sOps.now t)) = t + 1000000 := by
+  have hne : ¬ (t + 1000000 = -1000000) := by omega
+  have hn : ((t + 1000000).toNat : Int) = t + 1000000 := Int.toNat_of_nonneg (by omega)
+  have hlt : (t + 1000000).toNat < 18446744073709551616 := by omega
+  have htn : (UInt64.ofNat (t + 1000000).toNat).toNat = (t + 1000000).toNat := by
+    rw [UInt64.toNat_ofNat']; exact Nat.mod_eq_of_lt hlt
+  have hne2 : ¬ (UInt64.ofNat (t + 1000000).toNat = 0xBFF0000000000000) := by
+    intro h
+    have h' := congrArg UInt64.toNat h
+    rw [htn] at h'
+    have : (0xBFF0000000000000 : UInt64).toNat = 13830554455654793216 := by decide
+    omega
+  simp only [sOps, hne, if_false, hne2, htn, hn]
+
+/-- with exact time the conditions are: the challenge is issued at a non-negative clock reading `t2` not before the last secret
+rotation, the listener has rotated at least once, and the response arrives at `t4` with `t2 ≤ t4 < t2 + MAX_COOKIE_LIFETIME` -/
+theorem timely_exact (l : LState Int) (t2 t4 : Int) (h0 : 0 ≤ t2) (hb : t2 + 1000000 < 9223372036854775808)
+    (h24 : t2 ≤ t4) (hlt : t4 < t2 + Gen.MAX_COOKIE_LIFETIME_S * 1000000) (hact : l.active ≤ 1) (hrot : l.lastSecretUpdate ≤ t2 + 1000000) :
+    Timely sOps l t2 t4 := by
+  have hs := sOps_stamp t2 h0 hb
+  refine ⟨by decide, by decide, ?_, ?_, ?_⟩
+  · rw [hs]; simp only [sOps, decide_eq_true_eq]; omega
+  · unfold lifeOk; rw [hs]
+    simp only [sOps, Gen.MAX_COOKIE_LIFETIME_S, Bool.and_eq_true, decide_eq_true_eq] at hlt ⊢
+    omega
+  · unfold secretOk; rw [hs]
+    have ha : l.active = 0 ∨ l.active = 1 := by omega
+    rcases ha with ha | ha <;> simp only [ha, sOps] <;> simp <;> omega
+
+example : Timely sOps ({ lastSecretUpdate := 1000000, active := 0 } : LState Int) 5000000 5200000 :=
+  timely_exact _ _ _ (by decide) (by decide) (by decide) (by decide) (by decide) (by decide)
 
 /-! non-vacuity: the wrap values of the cookie-derived sequences -/
 example : seqFromCookie [0xFF, 0xFF, 0, 0] 0 = 16383 ∧ seqFromCookie [0xFF, 0xFF, 0, 0] 1 = 0 := by decide
